@@ -463,6 +463,21 @@ func (t *termer) call(c *ssa.CallCommon) string {
 		name = fnName(f)
 	} else if b, ok := c.Value.(*ssa.Builtin); ok {
 		name = b.Name()
+		// len(x[:n]) is n (the slice expression would have panicked otherwise)
+		if name == "len" && len(c.Args) == 1 {
+			a := c.Args[0]
+			if ph, isPhi := a.(*ssa.Phi); isPhi && t.ctx != nil {
+				a = resolveUnderGuards(ph, t.ctx)
+			}
+			if sl, isSl := a.(*ssa.Slice); isSl && sl.High != nil && sl.Max == nil {
+				if sl.Low == nil {
+					return t.val(sl.High)
+				}
+				if k, isK := constInt(sl.Low); isK && k == 0 {
+					return t.val(sl.High)
+				}
+			}
+		}
 	} else {
 		name = "dyn:" + t.val(c.Value)
 	}
